@@ -71,9 +71,46 @@ func (dec *propertiesDecoder) applyPropertyComments(context Context, path []inte
 	return err
 }
 
+// checkPropertyFits: a key cannot hold a plain value and nested properties at once (a = 1 next to a.b = 2):
+// placing one would silently lose the other
+func checkPropertyFits(root *CandidateNode, key string, path []interface{}) error {
+	node := root
+	for i, element := range path {
+		var child *CandidateNode
+		switch node.Kind {
+		case MappingNode:
+			for index := 0; index+1 < len(node.Content); index = index + 2 {
+				if node.Content[index].Value == fmt.Sprintf("%v", element) {
+					child = node.Content[index+1]
+				}
+			}
+		case SequenceNode:
+			if position, isNumber := element.(int64); isNumber && position >= 0 && int(position) < len(node.Content) {
+				child = node.Content[position]
+			}
+		}
+		if child == nil {
+			return nil
+		}
+		isLast := i == len(path)-1
+		if !isLast && child.Kind == ScalarNode && child.Tag != "!!null" {
+			return fmt.Errorf("property '%v' cannot be placed: '%v' already holds a value", key, strings.Join(strings.Split(key, ".")[:i+1], "."))
+		}
+		if isLast && child.Kind != ScalarNode && len(child.Content) > 0 {
+			return fmt.Errorf("property '%v' cannot be placed: it already holds nested properties", key)
+		}
+		node = child
+	}
+	return nil
+}
+
 func (dec *propertiesDecoder) applyProperty(context Context, properties *properties.Properties, key string) error {
 	value, _ := properties.Get(key)
 	path := parsePropKey(key)
+
+	if err := checkPropertyFits(context.MatchingNodes.Front().Value.(*CandidateNode), key, path); err != nil {
+		return err
+	}
 
 	propertyComments := properties.GetComments(key)
 	if len(propertyComments) > 0 {
